@@ -71,6 +71,28 @@ def main():
                     for bit in range(521, 528):
                         add(name, kind, 'x with unused top bit %d set' % bit, enc(x | (1 << bit), y))
                         add(name, kind, 'y with unused top bit %d set' % bit, enc(x, y | (1 << bit)))
+            # valid points with a coordinate in the gap [n, p) between the group order and the field prime (n < p on all
+            # three curves): canonical field elements, although they are not canonical scalars
+            if n < p:
+                found = 0
+                x = n
+                while found < 3 and x < p:
+                    y = sqrt_p3mod4((x * x * x - 3 * x + bcoef) % p, p)
+                    if y is not None:
+                        add(name, kind, 'valid point with x = n + %d (in [n, p))' % (x - n), enc(x, y))
+                        add(name, kind, 'valid point with x = n + %d, negated' % (x - n), enc(x, p - y))
+                        found += 1
+                    x += 1
+                found = 0
+                x = p - 1
+                while found < 2 and x > n:
+                    y = sqrt_p3mod4((x * x * x - 3 * x + bcoef) % p, p)
+                    if y is not None:
+                        add(name, kind, 'valid point with x = p - %d' % (p - x), enc(x, y))
+                        found += 1
+                    x -= 1
+                # y in [n, p): solve the cubic is hard; search small x until y or p - y falls into the gap is hopeless (gap is
+                # ~2^-128 of the field) - instead use y := the larger of (y, p - y) for the x values above (done by the negation)
             add(name, kind, '(0, 0)', enc(0, 0))
             add(name, kind, '(0, sqrt(b)) if it exists', enc(0, sqrt_p3mod4(bcoef, p) or 1))
             add(name, kind, 'identity: single 00 byte', b"\0")
